@@ -40,7 +40,7 @@ CHECKS = {
     "C07": dict(
         engine="S", category="model_checking", design="3/C07",
         technique="exhaustive enumeration of the fall-through decision table x call histories on the real runtime, lock-step with a reference model",
-        text="The complete table {strict, partial} x {plain, default body, real fn, both, Termination::report} x {unmentioned, unordered-unmatched (three forms), ordered-unmatched, explicit unmock, explicit default impl} x arguments x positions in histories of depth 2 (quick) / 3 (thorough): the predicted body runs exactly once with the caller's argument (side-effect log), otherwise the predicted panic class; no value is fabricated; counters are unchanged by unmatched calls. Added cells: a trait whose first item is a receiver-less provided fn, &mut self / Pin<&mut Self> methods with and without real function and default body, composite outputs whose single-use response is exhausted (refused, never replaced by an empty variant). Thorough: depth 4. Both tiers also run on the no_std+spin-lock build.",
+        text="The complete table {strict, partial} x {plain, default body, real fn, both, Termination::report} x {unmentioned, unordered-unmatched (three forms), ordered-unmatched, explicit unmock, explicit default impl} x arguments x positions in histories of depth 3 (quick) / 8 (thorough): the predicted body runs exactly once with the caller's argument (side-effect log), otherwise the predicted panic class; no value is fabricated; counters are unchanged by unmatched calls. Added cells: a trait whose first item is a receiver-less provided fn, &mut self / Pin<&mut Self> methods with and without real function and default body, composite outputs whose single-use response is exhausted (refused, never replaced by an empty variant). Both tiers also run on the no_std+spin-lock build.",
         note=S_NOTE),
     "C10": dict(
         engine="T", category="model_checking", design="3/C10",
